@@ -83,6 +83,9 @@ pub struct Pki {
     /// (chain, expired, nameOK) -> port of the TLS listener presenting that certificate
     pub ports: Vec<((String, bool, bool), u16)>,
     pub proxy_port: u16,
+    /// a TLS origin for "origin.test" and a TLS CONNECT proxy for "proxy.test", both with valid private-CA certificates
+    pub origin2_port: u16,
+    pub proxy2_port: u16,
     /// TLS listeners on [::1] presenting a private-CA certificate: nameOK -> port (address in the certificate / a DNS name only)
     pub v6_ports: Vec<(bool, u16)>,
     /// (tls13, nameOK) -> port of a peer that presents the genuine private-CA certificate but signs with another key
@@ -119,6 +122,51 @@ fn serve_tls(acceptor: Arc<SslAcceptor>, l: TcpListener) {
                 }
                 // paths of the form /<token>/... are recorded; /<token>/redir-<port> answers 307 to that port
                 let text = String::from_utf8_lossy(&got).to_string();
+                if text.starts_with("CONNECT ") {
+                    // this listener is being used as an https proxy: relay to the local listener named by the port
+                    let target = text.split_whitespace().nth(1).unwrap_or("").to_string();
+                    let tport: u16 = target.rsplit(':').next().and_then(|p| p.parse().ok()).unwrap_or(0);
+                    let Ok(mut up) = TcpStream::connect_timeout(&SocketAddr::from(([127, 0, 0, 1], tport)), Duration::from_secs(2)) else {
+                        let _ = t.write_all(b"HTTP/1.1 502 Bad Gateway\r\n\r\n");
+                        return;
+                    };
+                    if t.write_all(b"HTTP/1.1 200 Connection established\r\n\r\n").is_err() {
+                        return;
+                    }
+                    // one thread, both directions: short read timeouts on both sockets
+                    t.get_ref().set_read_timeout(Some(Duration::from_millis(4))).ok();
+                    up.set_read_timeout(Some(Duration::from_millis(4))).ok();
+                    let t0 = std::time::Instant::now();
+                    let mut idle_since = std::time::Instant::now();
+                    let mut b = [0u8; 16384];
+                    let is_wait = |e: &std::io::Error| matches!(e.kind(), std::io::ErrorKind::WouldBlock | std::io::ErrorKind::TimedOut | std::io::ErrorKind::Interrupted);
+                    while t0.elapsed() < Duration::from_secs(8) && idle_since.elapsed() < Duration::from_secs(3) {
+                        match t.read(&mut b) {
+                            Ok(0) => break,
+                            Ok(n) => {
+                                if up.write_all(&b[..n]).is_err() {
+                                    break;
+                                }
+                                idle_since = std::time::Instant::now();
+                            }
+                            Err(e) if is_wait(&e) => {}
+                            Err(_) => break,
+                        }
+                        match up.read(&mut b) {
+                            Ok(0) => break,
+                            Ok(n) => {
+                                if t.write_all(&b[..n]).is_err() {
+                                    break;
+                                }
+                                idle_since = std::time::Instant::now();
+                            }
+                            Err(e) if is_wait(&e) => {}
+                            Err(_) => break,
+                        }
+                    }
+                    let _ = t.shutdown();
+                    return;
+                }
                 let path = text.split_whitespace().nth(1).unwrap_or("").to_string();
                 let mut redirect = None;
                 if let Some(rest) = path.strip_prefix("/tk") {
@@ -233,6 +281,19 @@ pub fn pki() -> &'static Pki {
         let pl = TcpListener::bind("127.0.0.1:0").unwrap();
         let proxy_port = pl.local_addr().unwrap().port();
         std::thread::spawn(move || serve_connect_proxy(pl));
+        // a second, well-behaved pair for TLS inside TLS: an origin and an https proxy with names of their own
+        let mut good2 = Vec::new();
+        for name in ["origin.test", "proxy.test"] {
+            serial += 1;
+            let (cert, k) = mint(name, Some(name), false, Some((&ca, &ca_key)), false, serial);
+            let mut b = SslAcceptor::mozilla_intermediate_v5(SslMethod::tls()).unwrap();
+            b.set_private_key(&k).unwrap();
+            b.set_certificate(&cert).unwrap();
+            let acc = Arc::new(b.build());
+            let l = TcpListener::bind("127.0.0.1:0").unwrap();
+            good2.push(l.local_addr().unwrap().port());
+            std::thread::spawn(move || serve_tls(acc, l));
+        }
         // origins named by an IPv6 literal: the certificate carries the address, or only a DNS name
         let mut v6_ports = Vec::new();
         for name_ok in [true, false] {
@@ -261,7 +322,7 @@ pub fn pki() -> &'static Pki {
                 forged_ports.push(((tls13, name_ok), forged::start(cert.to_der().unwrap(), other.private_key_to_pkcs8().unwrap(), tls13)));
             }
         }
-        Pki { ca_pem: ca.to_pem().unwrap(), ca_der: ca.to_der().unwrap(), self_certs, ports, proxy_port, v6_ports, forged_ports }
+        Pki { ca_pem: ca.to_pem().unwrap(), ca_der: ca.to_der().unwrap(), self_certs, ports, proxy_port, v6_ports, forged_ports, origin2_port: good2[0], proxy2_port: good2[1] }
     })
 }
 
@@ -391,6 +452,16 @@ fn run_one(sc: &Value, p: &'static Pki, port: u16, url_host: &str, tlsver: &str)
         let url = match path {
             "connect" => {
                 ps = ps.https_proxy(format!("http://127.0.0.1:{}", p.proxy_port).parse::<url::Url>().unwrap());
+                format!("https://{}:{}/x", url_host, port)
+            }
+            // TLS inside TLS: the row's certificate is the https proxy's, the origin behind it is well-behaved ...
+            "tls-proxy-bad" => {
+                ps = ps.https_proxy(format!("https://good.test:{}", port).parse::<url::Url>().unwrap());
+                format!("https://origin.test:{}/x", p.origin2_port)
+            }
+            // ... or the proxy is well-behaved and the row's certificate is the origin's
+            "tls-proxy-good" => {
+                ps = ps.https_proxy(format!("https://proxy.test:{}", p.proxy2_port).parse::<url::Url>().unwrap());
                 format!("https://{}:{}/x", url_host, port)
             }
             "httpsproxy" => {
